@@ -17,7 +17,7 @@ from . import Grid
 from .datatypes import Quantity, Coordinate, Ref, Bin, Uri, \
     MARKER, NA, REMOVE, XStr
 from .jsonparser import MARKER_STR, NA_STR, REMOVE2_STR, REMOVE3_STR
-from .version import LATEST_VER, VER_3_0
+from .version import LATEST_VER, VER_3_0, pre_3_0
 from .zoneinfo import timezone_name
 
 
@@ -78,12 +78,12 @@ def dump_scalar(scalar, version=LATEST_VER):
     elif scalar is MARKER:
         return MARKER_STR
     elif scalar is NA:
-        if version < VER_3_0:
+        if pre_3_0(version):
             raise ValueError('Project Haystack %s ' \
                              'does not support NA' % version)
         return NA_STR
     elif scalar is REMOVE:
-        if version < VER_3_0:
+        if pre_3_0(version):
             return REMOVE2_STR
         else:
             return REMOVE3_STR
@@ -190,14 +190,14 @@ def dump_date_time(date_time, version=LATEST_VER):
 
 
 def dump_list(lst, version=LATEST_VER):
-    if version < VER_3_0:
+    if pre_3_0(version):
         raise ValueError('Project Haystack %s ' \
                          'does not support lists' % version)
     return list(map(functools.partial(dump_scalar, version=version), lst))
 
 
 def dump_dict(dic, version=LATEST_VER):
-    if version < VER_3_0:
+    if pre_3_0(version):
         raise ValueError('Project Haystack %s ' \
                          'does not support dict' % version)
     return {k: dump_scalar(v, version=version) for (k, v) in dic.items()}
